@@ -243,6 +243,17 @@ def runQry (c : Case) : Res :=
         match (c.ob1 "chi").toInt? with
         | some x => if x != eulerChi want then bad := s!"euler_characteristic={x}, alternating sum of the enumerated f-vector = {eulerChi want}" :: bad
         | none => pure ()
+        -- validate_triangulation_euler must report the same f-vector and χ
+        match c.ob "fvec2" with
+        | some fs2 =>
+          let got2 := fs2.filterMap String.toNat?
+          if !K.cells.isEmpty && got2 != want then bad := s!"validate_triangulation_euler f-vector {got2}, face enumeration gives {want}" :: bad
+          match (c.ob1 "chi2").toInt? with
+          | some x => if !K.cells.isEmpty && x != eulerChi want then bad := s!"validate_triangulation_euler χ={x}, alternating sum of the enumerated f-vector = {eulerChi want}" :: bad
+          | none => pure ()
+          if c.arg "euclid" == "1" && !K.cells.isEmpty && eulerChi want == 1 && c.ob1 "euler_valid" == "0" then
+            bad := "validate_triangulation_euler rejects a Euclidean triangulation whose enumerated χ is 1" :: bad
+        | none => pure ()
         -- every Euclidean triangulation with a cell is a ball with χ = 1 and a closed boundary
         if c.arg "euclid" == "1" && !K.cells.isEmpty then
           if eulerChi want != 1 then bad := s!"Euclidean triangulation has χ = {eulerChi want} ≠ 1" :: bad
